@@ -372,7 +372,9 @@ RULE = ("all lengths 0..40 x {4 operators x every Vector/Matrix operator form (o
         "scalar-right, assign), negation, 29 unary maps, powi (exponents 0,1,2,3,-1,-2,5,..), powf, 7 reductions}, "
         "then random lengths up to 1e4; threshold-band strata: logsumexp/logmeanexp (free + Vector method) with maxima in "
         "[690, 709.78], in the underflow band [-745.2, -690], straddling +-709, lengths 1..300; map arguments at the "
-        "overflow/underflow/tiny-argument thresholds of exp, exp2, exp_m1, ln_1p, sinh, cosh, ...; non-trivial = distinct (request kind, operator/function, operand kinds, "
+        "overflow/underflow/tiny-argument thresholds of exp, exp2, exp_m1, ln_1p, sinh, cosh, ...; every special exponent of powf "
+        "(+-1/2, +-1/3, +-1/4, +-1, +-2, +-3, +-0, +-1.5, +-1e-3, +-10, +-inf, NaN) and powi (0, +-1..+-4, i32::MIN, i32::MAX) on Vector "
+        "and Matrix; every map on a list of special arguments (0, +-1, +-1/2, powers of two, multiples of pi/4, pi/6); non-trivial = distinct (request kind, operator/function, operand kinds, "
         "ownership, length) class with a reply")
 EXHAUSTIVE = {"quick": False, "thorough": False}
 NOT_PROVED = [
@@ -442,7 +444,9 @@ def data(rng, n):
 
 
 def map_data(rng, fn, n):
-    k = rng.randint(0, 6)
+    k = rng.randint(0, 7)
+    if k == 7:
+        return [rng.choice(SPECIAL_ARGS) for _ in range(n)]
     if k >= 5:
         e = edge_values(rng, fn, n)
         if e is not None:
@@ -539,6 +543,64 @@ def map_lines(rng, n, cont, fns, cover):
     return out
 
 
+I32_MIN, I32_MAX = -2147483648, 2147483647
+POWF_SPECIAL = [0.5, -0.5, 1.0 / 3.0, -1.0 / 3.0, 0.25, -0.25, 1.0, -1.0, 2.0, -2.0, 3.0, -3.0, 0.0, -0.0, 1.5, -1.5,
+                1e-3, -1e-3, 10.0, -10.0, INF, -INF, NAN, 2.0 / 3.0, -2.0 / 3.0, 4.0, 0.75, 1.0 / 7.0]
+POWI_SPECIAL = [0, 1, -1, 2, -2, 3, -3, 4, -4, I32_MIN, I32_MAX, I32_MIN + 1, I32_MAX - 1, 1073741824, 65536]
+# arguments a library might special-case: zeros, +-1, +-1/2, powers of two over the whole exponent range, multiples of
+# pi/4 and pi/6 (nearest f64), small integers, e
+SPECIAL_ARGS = ([0.0, -0.0, 1.0, -1.0, 0.5, -0.5, 2.0, -2.0, 3.0, -3.0, 4.0, 8.0, 10.0, 100.0, 1000.0, 0.25, 0.125, 1.5, -1.5,
+                 math.e, 1.0 / math.e, 1.0 / 3.0, INF, -INF, NAN]
+                + [2.0 ** k for k in (-1074, -1073, -1023, -1022, -537, -53, -52, -27, -26, -1, 1, 10, 26, 27, 28, 29, 52, 53, 63, 64, 511, 512, 1023)]
+                + [-(2.0 ** k) for k in (-1074, -1022, -52, 10, 53, 1023)]
+                + [k * math.pi / 4 for k in range(-8, 9) if k] + [math.pi / 6, -math.pi / 6, math.pi / 3, 5 * math.pi / 6, 180.0, 90.0, 360.0, 45.0])
+
+
+def pow_data(rng, n, p_neg=0.2):
+    return [rng.choice(SPECIAL_ARGS) if rng.chance(0.2) else abs(rng.normal()) * 10.0 ** rng.randint(-2, 2) * (-1 if rng.chance(p_neg) else 1)
+            for _ in range(n)]
+
+
+def special_pow_lines(rng, cover, reps):
+    """every special exponent of powf / powi on both containers, at lengths that cross the unroll width"""
+    out = []
+    for cont in ("v", "m"):
+        for p in POWF_SPECIAL:
+            for _ in range(reps):
+                n = rng.randint(1, 20)
+                x = pow_data(rng, n)
+                sh = shapes_of(n, rng)
+                out.append("powf %s %s" % (f2h(p), V(x) if cont == "v" else M(sh[0], sh[1], x)))
+                out.append("scalf %s %s" % (f2h(p), V(x)[2:]))
+                cover["powf_special"] = cover.get("powf_special", 0) + 1
+        for e in POWI_SPECIAL:
+            for _ in range(reps):
+                n = rng.randint(1, 20)
+                x = pow_data(rng, n, 0.4)
+                if abs(e) > 1000:   # informative bases for huge exponents: 1 +- tiny, exact +-1, 0, inf
+                    x = [rng.choice([1.0, -1.0, 0.0, -0.0, INF, -INF, NAN, 0.5, -2.0]) if rng.chance(0.3)
+                         else (1.0 + rng.normal() * 10.0 ** rng.randint(-12, -7)) * rng.choice([1, -1]) for _ in range(n)]
+                sh = shapes_of(n, rng)
+                out.append("powi %d %s" % (e, V(x) if cont == "v" else M(sh[0], sh[1], x)))
+                out.append("scali %d %s" % (e, V(x)[2:]))
+                cover["powi_special"] = cover.get("powi_special", 0) + 1
+    return out
+
+
+def special_map_lines(rng, cover):
+    """every unary map on the whole list of special arguments, both containers"""
+    out = []
+    for cont in ("v", "m"):
+        for fn in MAPS:
+            x = list(SPECIAL_ARGS) + [math.nextafter(v, rng.choice([INF, -INF])) for v in SPECIAL_ARGS if v == v and abs(v) != INF and rng.chance(0.3)]
+            rng.shuffle(x)
+            sh = shapes_of(len(x), rng)
+            out.append("map %s %s" % (fn, V(x) if cont == "v" else M(sh[0], sh[1], x)))
+            out.append("scal %s %s" % (fn, V(x)[2:]))
+            cover["maps_special_args"] = cover.get("maps_special_args", 0) + 1
+    return out
+
+
 def pow_lines(rng, n, cont, exps, nf, cover):
     out = []
     for e in exps:
@@ -548,7 +610,7 @@ def pow_lines(rng, n, cont, exps, nf, cover):
         out.append("scali %d %s" % (e, V(x)[2:]))
         cover["powi"] = cover.get("powi", 0) + 1
     for _ in range(nf):
-        p = rng.choice([0.5, 2.0, 3.0, -1.0, 0.0, 1.5, rng.normal() * 3, INF, NAN, 1.0 / 3.0])
+        p = rng.choice(POWF_SPECIAL + [rng.normal() * 3])
         x = [rng.choice(SPECIALS) if rng.chance(0.1) else abs(rng.normal()) * 10.0 ** rng.randint(-2, 2) * (1 if rng.chance(0.8) else -1) for _ in range(n)]
         sh = shapes_of(n, rng)
         out.append("powf %s %s" % (f2h(p), V(x) if cont == "v" else M(sh[0], sh[1], x)))
@@ -735,6 +797,10 @@ def corpus():
         "red logmeanexp free %s" % V([708.9] * 3), "red logmeanexp meth %s" % V([709.5, 709.7, 709.78]),
         "red logsumexp meth %s" % V([-745.2, -746.0, -750.0]), "red logmeanexp free %s" % V([-745.2, -746.0, -750.0]),
         "red logsumexp free %s" % V([-708.0] * 50), "red logsumexp free %s" % V([709.0, -709.0, 708.5, -745.0]),
+        # powf with exponents a library might special-case (seeded change C20g: sqrt/cbrt fast path losing the reciprocal)
+        "powf %s %s" % (f2h(-0.5), V([4.0, 9.0, 0.25, 2.0, 1e10, 16.0, 1.0, 3.0, 100.0])), "scalf %s %s" % (f2h(-0.5), V([4.0, 9.0, 0.25, 2.0, 1e10, 16.0, 1.0, 3.0, 100.0])[2:]),
+        "powf %s %s" % (f2h(-1.0 / 3.0), M(2, 2, [8.0, 27.0, 2.0, 0.001])), "scalf %s %s" % (f2h(-1.0 / 3.0), V([8.0, 27.0, 2.0, 0.001])[2:]),
+        "powf %s %s" % (f2h(0.5), V([-0.0, -INF, 4.0])), "scalf %s %s" % (f2h(0.5), V([-0.0, -INF, 4.0])[2:]),
         "red max free %s" % V([0.0, -0.0]), "red max free %s" % V([-0.0, 0.0]), "red max free %s" % V([NAN, -0.0, NAN, 0.0]),
     ]
 
@@ -755,6 +821,8 @@ def gen(rng, tier):
         lines += red_lines(rng, n, cover)
         if not quick:
             lines += red_lines(rng, n, cover)
+    lines += special_pow_lines(rng, cover, 1 if quick else 4)
+    lines += special_map_lines(rng, cover)
     # threshold bands of exp for the log-domain reductions: every length 1..40, then lengths up to 300
     for n in list(range(1, 41)) + [rng.randint(41, 300) for _ in range(40 if quick else 400)]:
         lines += band_lines(rng, n, cover)
